@@ -28,6 +28,10 @@ type SigDef struct {
 	CustomTs bool   // the time-stamp group is spelled out as \S+ instead of the expandable empty group
 	Key      string
 	ValRe    string // \S+  \d+  [-+.0-9eE]+  \w+  rest  whole
+	// Alt: the field is written `KEY=value` or `KEY:value`, and the pattern has
+	// one alternative for each, BOTH naming the value group the same (Go's
+	// regexp accepts that; `${name}` expands to the one that took part).
+	Alt bool
 	// NoNoise (end-to-end plays): a whole-line ts_now pattern that leaves out
 	// what the shell itself prints on stderr.
 	NoNoise bool
@@ -69,6 +73,10 @@ func (s *SigDef) Pattern() string {
 	if s.ValRe == "rest" {
 		return `^` + ts + `(?:.* )?` + s.Key + `=(?P<` + kindNames[s.Kind] + `>.*)$`
 	}
+	if s.Alt {
+		g := `(?P<` + kindNames[s.Kind] + `>` + s.ValRe + `)`
+		return `^` + ts + `(?:.* )?(?:` + s.Key + `=` + g + `|` + s.Key + `:` + g + `)(?: .*)?$`
+	}
 	return `^` + ts + `(?:.* )?` + s.Key + `=(?P<` + kindNames[s.Kind] + `>` + s.ValRe + `)(?: .*)?$`
 }
 
@@ -77,6 +85,11 @@ type RoleDef struct {
 	Name   string
 	Sigs   []SigDef
 	Actors []string
+	// Extends: `role <Name> extends <Extends>`; the first NInherited signals
+	// (and the spotlight, the actions) come from there, the role's own
+	// clauses are Sigs[NInherited:].
+	Extends    string
+	NInherited int
 	// Multi: the actors are <Multi>1 .. <Multi>N, defined by the single
 	// cast line `<Multi>* play N <role>`.
 	Multi string
@@ -111,13 +124,20 @@ type CfgGen struct {
 func (c *CfgGen) Text(spot map[string]string, script string) string {
 	var b strings.Builder
 	for _, r := range c.Roles {
-		b.WriteString("role " + r.Name + "\n  :noop true\n")
-		sp := "true"
-		if spot != nil {
-			sp = spot[r.Name]
+		if r.Extends != "" {
+			b.WriteString("role " + r.Name + " extends " + r.Extends + "\n")
+		} else {
+			b.WriteString("role " + r.Name + "\n  :noop true\n")
+			sp := "true"
+			if spot != nil {
+				sp = spot[r.Name]
+			}
+			b.WriteString("  spotlight " + sp + "\n")
 		}
-		b.WriteString("  spotlight " + sp + "\n")
 		for i := range r.Sigs {
+			if i < r.NInherited {
+				continue
+			}
 			s := &r.Sigs[i]
 			b.WriteString("  signal " + s.Name + " " + kindNames[s.Kind] + " at " + s.Pattern() + "\n")
 		}
@@ -223,6 +243,24 @@ type Gen struct {
 
 func (g *Gen) pick(xs []string) string { return xs[g.R.Intn(len(xs))] }
 
+// sigDef generates one signal clause.
+func (g *Gen) sigDef(name, key string) SigDef {
+	s := SigDef{Name: name, Kind: g.R.Intn(3), Key: key}
+	s.Group = g.pick([]string{"now", "deltasecs", "deltasecs", "rfc3339", "log"})
+	if s.Group != "now" && g.R.Intn(3) == 0 {
+		s.CustomTs = true
+	}
+	if s.Kind == 0 {
+		s.ValRe = g.pick([]string{`\S+`, `\S+`, `\w+`, "rest", "whole"})
+	} else {
+		s.ValRe = g.pick([]string{`\S+`, `\S+`, `\S+`, `[-+.0-9eE]+`, `\d+`})
+	}
+	if s.ValRe != "rest" && s.ValRe != "whole" && g.R.Intn(4) == 0 {
+		s.Alt = true
+	}
+	return s
+}
+
 // Config generates roles, cast and audience.
 func (g *Gen) Config() *CfgGen {
 	c := &CfgGen{}
@@ -232,20 +270,36 @@ func (g *Gen) Config() *CfgGen {
 	}
 	actorNames := []string{"x", "y", "z", "w"}
 	na := 0
+	if g.ForceRoles == 0 && g.R.Intn(4) == 0 {
+		// a base role and two sibling roles extending it, each adding a
+		// signal of the SAME name with its own line format; the base has 3
+		// or 5-7 signals (the sizes at which its parser list has spare
+		// capacity after parsing)
+		nroles = 0
+		base := RoleDef{Name: "r1"}
+		nb := []int{3, 3, 5, 6, 7}[g.R.Intn(5)]
+		for si := 0; si < nb; si++ {
+			base.Sigs = append(base.Sigs, g.sigDef(fmt.Sprintf("s%d", si+1), string(rune('a'+si))))
+		}
+		if g.R.Intn(2) == 0 {
+			base.Actors = []string{actorNames[na]}
+			na++
+		}
+		c.Roles = append(c.Roles, base)
+		for k := 0; k < 2; k++ {
+			r := RoleDef{Name: fmt.Sprintf("r%d", k+2), Extends: "r1", NInherited: nb}
+			r.Sigs = append(r.Sigs, base.Sigs...)
+			r.Sigs = append(r.Sigs, g.sigDef("sx", string(rune('a'+nb+k))))
+			r.Actors = []string{actorNames[na]}
+			na++
+			c.Roles = append(c.Roles, r)
+		}
+	}
 	for ri := 0; ri < nroles; ri++ {
 		r := RoleDef{Name: fmt.Sprintf("r%d", ri+1)}
 		nsig := 1 + g.R.Intn(4)
 		for si := 0; si < nsig; si++ {
-			s := SigDef{Name: fmt.Sprintf("s%d", si+1), Kind: g.R.Intn(3), Key: string(rune('a' + si))}
-			s.Group = g.pick([]string{"now", "deltasecs", "deltasecs", "rfc3339", "log"})
-			if s.Group != "now" && g.R.Intn(3) == 0 {
-				s.CustomTs = true
-			}
-			if s.Kind == 0 {
-				s.ValRe = g.pick([]string{`\S+`, `\S+`, `\w+`, "rest", "whole"})
-			} else {
-				s.ValRe = g.pick([]string{`\S+`, `\S+`, `\S+`, `[-+.0-9eE]+`, `\d+`})
-			}
+			s := g.sigDef(fmt.Sprintf("s%d", si+1), string(rune('a'+si)))
 			r.Sigs = append(r.Sigs, s)
 		}
 		multi := g.R.Intn(3) == 0
@@ -285,6 +339,9 @@ func (g *Gen) Config() *CfgGen {
 	obsEvent := map[string]bool{"o1": false, "o2": true, "o3": g.R.Intn(2) == 0}
 	for ri := range c.Roles {
 		r := &c.Roles[ri]
+		if len(r.Actors) == 0 {
+			continue // a base role nobody plays
+		}
 		for si := range r.Sigs {
 			s := &r.Sigs[si]
 			if g.R.Intn(7) == 0 {
@@ -738,7 +795,7 @@ func (l *LineGen) IntentFor(s *SigDef, nums map[string]*NumTok) Intent {
 	// the field: a whole token KEY=value (the LAST one, were there several)
 	idx := -1
 	for i, t := range body {
-		if strings.HasPrefix(t, s.Key+"=") {
+		if strings.HasPrefix(t, s.Key+"=") || (s.Alt && strings.HasPrefix(t, s.Key+":")) {
 			idx = i
 		}
 	}
@@ -948,7 +1005,11 @@ func (g *Gen) Lines(c *CfgGen, n int, nums map[string]*NumTok) []ItemGen {
 				}
 				v = nt.S
 			}
-			fields = append(fields, s.Key+"="+v)
+			sep := "="
+			if s.Alt && g.R.Intn(2) == 0 {
+				sep = ":"
+			}
+			fields = append(fields, s.Key+sep+v)
 		}
 		if g.R.Intn(4) == 0 {
 			fields = append(fields, g.pick([]string{"zz=1", "noise", "q", "x9=abc", "=", "aa=3"}))
